@@ -338,6 +338,8 @@ fn main() {
         finish(&cli, rep, t0);
     }
 
+    rep.oblige("clone_conformance_scripts", 1);
+    clone_conformance(&mut rep, cli.seed);
     rep.oblige("variable_hz_runs", 1);
     rep.oblige("frequency_signal_with_exhaustion_hint_still_non_zero", 1);
     rep.oblige("simplex_cells_scanned", 1);
@@ -463,6 +465,18 @@ fn main() {
     rep.sample(J::obj().set("kind", J::s("const")).set("rate", J::f(44_100.0)).set("hz", J::f(440.0)).set("frames", J::u(long)).set("checked", J::s("phase in [0,1), |phase - frac(n*hz/rate)| <= running bound, saw/square/sine/simplex per frame")));
     rep.sample(J::obj().set("kind", J::s("noise")).set("seed", J::s("u64::MAX - 2")).set("frames", J::u(nf as u64)).set("checked", J::s("range, same-seed equality, clone mid-stream, restart")));
     finish(&cli, rep, t0);
+}
+
+/// clone() / clone_from() of oscillators and noise mid-stream
+fn clone_conformance(rep: &mut Report, seed: u64) {
+    let mut rng = Rng::derive(seed, &[172]);
+    let mut n = 0;
+    n += checks::cloneconf::check_clone_state("sine", "kind=clone;osc=sine", |v| signal::rate(44_100.0).const_hz(440.0 + 110.0 * v as f64).sine(), |s, _i| s.next().to_bits(), rep, &mut rng, 18, 40, 10);
+    n += checks::cloneconf::check_clone_state("saw", "kind=clone;osc=saw", |v| signal::rate(48_000.0).const_hz(1_000.0 + v as f64).saw(), |s, _i| s.next().to_bits(), rep, &mut rng, 18, 40, 10);
+    n += checks::cloneconf::check_clone_state("noise", "kind=clone;osc=noise", |v| signal::noise(seed.wrapping_add(7 * v)), |s, _i| s.next().to_bits(), rep, &mut rng, 18, 40, 10);
+    n += checks::cloneconf::check_clone_state("noise_simplex", "kind=clone;osc=simplex", |v| signal::rate(1_000.0).const_hz(3.0 + v as f64).noise_simplex(), |s, _i| s.next().to_bits(), rep, &mut rng, 18, 40, 10);
+    rep.eval(n);
+    rep.hit_n("clone_conformance_scripts", n);
 }
 
 /// frequency patterns for the variable-hz runs (all finite, non-negative)
